@@ -40,7 +40,12 @@ type recLog struct {
 	nodes    int
 	apiDone  bool
 	late     []recEvent
+	endsFail bool // every EndEdit after the injected fault fails with errSentinel2
+	faulted  bool
 }
+
+var errSentinel2 = errors.New("injected failure of EndEdit after an earlier failure")
+var errTrigger = errors.New("injected trigger failure")
 
 var errSentinel = errors.New("injected node failure")
 
@@ -64,6 +69,9 @@ func (r *recNode) step(e recEvent) (int, bool) {
 	r.log.seq++
 	e.Seq, e.Side, e.Node = r.log.seq, r.side, r.id
 	e.Faulted = r.log.seq == r.log.faultAt
+	if e.Faulted {
+		r.log.faulted = true
+	}
 	if r.log.apiDone {
 		r.log.late = append(r.log.late, e)
 	}
@@ -123,10 +131,17 @@ func (r *recNode) BeginEdit(req node.NodeRequest) error {
 }
 
 func (r *recNode) EndEdit(req node.NodeRequest) error {
+	already := r.log.faulted
 	i, fault := r.step(recEvent{Kind: "EndEdit", New: req.New, Delete: req.Delete, EditRoot: req.EditRoot})
 	if fault {
 		r.log.events[i].Err = true
 		return errSentinel
+	}
+	if already && r.log.endsFail {
+		// the node is told the edit ended all the same, and then reports a failure of its own
+		r.inner.EndEdit(req)
+		r.log.events[i].Err = true
+		return errSentinel2
 	}
 	err := r.inner.EndEdit(req)
 	r.log.events[i].Err = err != nil
@@ -150,6 +165,11 @@ type c12Case struct {
 	// Into: the ...Into entry points: the full tree is the side being read (selection found at Entry), Source is what the
 	// node being written to holds before
 	Into bool `json:"into,omitempty"`
+	// Trigger: a node.Trigger installed on the browser of the selection: "" none, "passive" (both callbacks succeed),
+	// "begin-fails" / "end-fails" (that callback returns an error every time it is called)
+	Trigger string `json:"trigger,omitempty"`
+	// EndsFail: from the injected fault on, every EndEdit callback fails too (a second, different error)
+	EndsFail bool `json:"endsFail,omitempty"`
 	// FaultAt: 0 = enumerate every position (the normal mode); > 0 only that position (replay of a shrunk failure)
 	FaultAt int `json:"faultAt"`
 }
@@ -157,7 +177,7 @@ type c12Case struct {
 // run executes the scenario with a fault at position k (0 = none) and returns the log, the error and a panic text.
 func c12Exec(c c12Case, mm *meta.Module, k int) (*recLog, error, string) {
 	root := c.Module.Root()
-	log := &recLog{faultAt: k}
+	log := &recLog{faultAt: k, endsFail: c.EndsFail && k > 0}
 	store, _ := dm.NewStore("rs", root, c.Target)
 	selSide, nodeSide := "target", "source"
 	if c.Into {
@@ -173,6 +193,22 @@ func c12Exec(c c12Case, mm *meta.Module, k int) (*recLog, error, string) {
 			}
 		}()
 		b := node.NewBrowser(mm, tn)
+		if c.Trigger != "" {
+			b.Triggers.Install(&node.Trigger{
+				OnBegin: func(*node.Trigger, node.NodeRequest) error {
+					if c.Trigger == "begin-fails" {
+						return errTrigger
+					}
+					return nil
+				},
+				OnEnd: func(*node.Trigger, node.NodeRequest) error {
+					if c.Trigger == "end-fails" {
+						return errTrigger
+					}
+					return nil
+				},
+			})
+		}
 		sel := b.Root()
 		if len(c.Entry) > 0 {
 			var ferr error
@@ -284,6 +320,11 @@ func c12Check(o *hx.Obs, c c12Case, log *recLog, apiErr error, panicTxt string, 
 			o.Failf(sig("error-lost"), "callback %d (%s on the %s side) returned an error but the API call returned nil\nhistory: %s", k, faultKind, faultSide, desc())
 			return false
 		}
+		if !errors.Is(apiErr, errSentinel) && (errors.Is(apiErr, errTrigger) || errors.Is(apiErr, errSentinel2)) {
+			// the call failed for a later reason of the scenario's own making; the injected error itself got lost
+			o.Failf(sig("error-lost"), "callback %d (%s on the %s side) returned an error that the API error %q (a later failure) does not wrap\nhistory: %s", k, faultKind, faultSide, apiErr, desc())
+			return false
+		}
 		if !errors.Is(apiErr, errSentinel) {
 			o.Failf(sig("not-wrapped"), "callback %d (%s on the %s side) failed; the API error %q does not wrap it\nhistory: %s", k, faultKind, faultSide, apiErr, desc())
 			return false
@@ -356,6 +397,12 @@ func c12Run(c c12Case, o *hx.Obs) {
 		return
 	}
 	o.Class("op=%s into=%v", c.Op, c.Into)
+	if c.Trigger != "" {
+		o.Class("trigger=%s", c.Trigger)
+	}
+	if c.EndsFail {
+		o.Class("EndEdit fails too after the fault")
+	}
 	log0, err0, p0 := c12Exec(c, mm, 0)
 	if err0 != nil && strings.HasPrefix(err0.Error(), "harness:") {
 		return
@@ -443,12 +490,14 @@ func c12Gen(t *rapid.T) c12Case {
 	if c.Op == "upsert" || c.Op == "insert" || c.Op == "update" {
 		c.Into = rapid.IntRange(0, 2).Draw(t, "into") == 0
 	}
+	c.Trigger = rapid.SampledFrom([]string{"", "", "", "passive", "begin-fails", "end-fails"}).Draw(t, "trigger")
+	c.EndsFail = rapid.IntRange(0, 3).Draw(t, "ends-fail") == 0
 	return c
 }
 
 var c12Faults = hx.Register(&hx.Check[c12Case]{
 	Name: "c12-fault-enumeration",
-	Rule: "edit scenarios (upsert / insert / update in both directions (...From and ...Into) / delete / replace x generated tree shapes x entry point root / container / list / list entry) with source and target wrapped by a recording node; the scenario is run fault-free (K callbacks) and then once for every k in 1..K with callback k (Child, Next, Field, Choose, BeginEdit or EndEdit on either side) returning a sentinel error - exhaustive per scenario; invariants over each recorded history: begin/end pairing with equal flags before the call returns, no begin/end on the source side, the API error wraps the sentinel, no write after the failing call; non-trivial = K >= 6",
+	Rule: "edit scenarios (upsert / insert / update in both directions (...From and ...Into) / delete / replace x generated tree shapes x entry point root / container / list / list entry) with source and target wrapped by a recording node; the scenario is run fault-free (K callbacks) and then once for every k in 1..K with callback k (Child, Next, Field, Choose, BeginEdit or EndEdit on either side) returning a sentinel error - exhaustive per scenario; optionally with a trigger installed on the browser that succeeds, fails on begin or fails on end, and optionally with every EndEdit after the injected fault failing too (a second error); invariants over each recorded history: begin/end pairing with equal flags before the call returns, no begin/end on the source side, the API error wraps the sentinel, no write after the failing call; non-trivial = K >= 6",
 	Gen:  c12Gen,
 	Run:  c12Run,
 })
